@@ -187,6 +187,28 @@ def replay_maps(ctx, head, maps, lib, report, with_se):
             tol = 1e-9 if ev['p'] in ('Cp', 'H') else 2e-6
             if abs(val - xv) > tol * max(1.0, abs(xv)):
                 report('sum', key, '%s = %r; spec expects %r' % (key, val, xv))
+        # every count doubled: the sum doubles (theorem Scaling of MC_Estimate), asked of the same library object
+        if not with_se and m['evals']:
+            x2 = [[g, [2 * c[0], c[1]]] for g, c in x]
+            k4, est2, _ = call(lib.Estimate, pymap(x2), 'thermochem')
+            if k4 == 'error':
+                report('missing', 'estimate:' + show_map(x2), 'Estimate(%s) raised %s; spec expects an estimate (as for %s)'
+                       % (show_map(x2), type(est2).__name__, xs))
+            else:
+                for ev in m['evals']:
+                    if ev['o']['k'] != 'value' or ev['p'] == 'G':
+                        continue
+                    T = GRID * float(fr(ev['t']))
+                    k5, v5, w5 = call(getattr(est2, cl.GETTERS[ev['p']]), T)
+                    o5, val5 = cl.classify(k5, v5, w5)
+                    xv = 2 * cl.term_value(ev['o']['t'])
+                    n += 1
+                    tol = 1e-9 if ev['p'] in ('Cp', 'H') else 2e-6
+                    if o5['k'] != 'value' or abs(val5 - xv) > tol * max(1.0, abs(xv)):
+                        report('sum', 'estimate(%s).%s(%g)' % (show_map(x2), cl.GETTERS[ev['p']], T),
+                               'estimate(%s).%s(%g) = %s %r; twice the sum for %s is %r'
+                               % (show_map(x2), cl.GETTERS[ev['p']], T, o5, val5, xs, xv))
+                        break
         if with_se and m['q']:
             n += se_check(est, xs, float(fr(m['q'][0])))
     return n
